@@ -12,11 +12,13 @@ SIMHDR := $(wildcard sim/*.h)
 
 ASAN_CHECKS := c33 c25 c13 c18 c19 c20 c23 c32
 ASAN_BINS := $(patsubst %,$(B)/bin/%,$(ASAN_CHECKS))
+SIM_SRC_c13 := sim/alloc_seam.cpp
+SIM_SRC_c33 := sim/alloc_seam.cpp
+SIM_SRC_c32 := sim/rand_seam.cpp sim/alloc_seam.cpp
 SIM_SRC_c18 := sim/alloc_seam.cpp
 SIM_SRC_c19 := sim/alloc_seam.cpp
 SIM_SRC_c20 := sim/alloc_seam.cpp
 SIM_SRC_c23 := sim/rand_seam.cpp
-SIM_SRC_c32 := sim/rand_seam.cpp
 LDFLAGS_c23 := -Wl,--wrap=rand -Wl,--wrap=__gmpz_urandomm
 LDFLAGS_c32 := -Wl,--wrap=rand -Wl,--wrap=__gmpz_urandomm
 
@@ -53,14 +55,18 @@ $(B)/obj/sched.o: sim/sched.cpp sim/sched.h sim/rng.h
 $(B)/obj/wraps_tsan.o: sim/wraps_tsan.cpp sim/sched.h
 	@mkdir -p $(B)/obj
 	$(CXX) $(PLAIN_FLAGS) -c -o $@ sim/wraps_tsan.cpp
-$(B)/bin/c41_tsan: checks/c41_threads.cpp $(SIMHDR) $(B)/obj/sched.o $(B)/obj/wraps_tsan.o $(B)/tsan_ts/symengine/libsymengine.a
+SYNC_WRAPS := -Wl,--wrap=pthread_mutex_lock -Wl,--wrap=pthread_mutex_unlock -Wl,--wrap=pthread_rwlock_rdlock -Wl,--wrap=pthread_rwlock_wrlock -Wl,--wrap=pthread_rwlock_unlock -Wl,--wrap=pthread_once
+$(B)/obj/wraps_sync.o: sim/wraps_sync.cpp sim/sched.h
+	@mkdir -p $(B)/obj
+	$(CXX) $(PLAIN_FLAGS) -c -o $@ sim/wraps_sync.cpp
+$(B)/bin/c41_tsan: checks/c41_threads.cpp $(SIMHDR) $(B)/obj/sched.o $(B)/obj/wraps_tsan.o $(B)/obj/wraps_sync.o $(B)/tsan_ts/symengine/libsymengine.a
 	@mkdir -p $(B)/bin $(B)/dep
-	$(CXX) $(TSAN_FLAGS) $(call inc,tsan_ts) -MMD -MF $(B)/dep/c41_tsan.d -o $@ checks/c41_threads.cpp $(B)/obj/sched.o $(B)/obj/wraps_tsan.o $(B)/tsan_ts/symengine/libsymengine.a -lgmp -lpthread $(WRAPFLAGS)
+	$(CXX) $(TSAN_FLAGS) $(call inc,tsan_ts) -MMD -MF $(B)/dep/c41_tsan.d -o $@ checks/c41_threads.cpp $(B)/obj/sched.o $(B)/obj/wraps_tsan.o $(B)/obj/wraps_sync.o $(B)/tsan_ts/symengine/libsymengine.a -lgmp -lpthread $(WRAPFLAGS) $(SYNC_WRAPS)
 
 $(B)/obj/wraps_guard.o: sim/wraps_guard.cpp sim/sched.h
 	@mkdir -p $(B)/obj
 	$(CXX) $(PLAIN_FLAGS) -c -o $@ sim/wraps_guard.cpp
 GUARD_WRAPS := -Wl,--wrap=__cxa_guard_acquire -Wl,--wrap=__cxa_guard_release -Wl,--wrap=__cxa_guard_abort
-$(B)/bin/c41_asan: checks/c41_threads.cpp $(SIMHDR) $(B)/obj/sched.o $(B)/obj/wraps_guard.o $(B)/asan_ts/symengine/libsymengine.a
+$(B)/bin/c41_asan: checks/c41_threads.cpp $(SIMHDR) $(B)/obj/sched.o $(B)/obj/wraps_guard.o $(B)/obj/wraps_sync.o $(B)/asan_ts/symengine/libsymengine.a
 	@mkdir -p $(B)/bin $(B)/dep
-	$(CXX) $(ASAN_FLAGS) $(call inc,asan_ts) -MMD -MF $(B)/dep/c41_asan.d -o $@ checks/c41_threads.cpp $(B)/obj/sched.o $(B)/obj/wraps_guard.o $(B)/asan_ts/symengine/libsymengine.a -lgmp -lpthread $(GUARD_WRAPS)
+	$(CXX) $(ASAN_FLAGS) $(call inc,asan_ts) -MMD -MF $(B)/dep/c41_asan.d -o $@ checks/c41_threads.cpp $(B)/obj/sched.o $(B)/obj/wraps_guard.o $(B)/obj/wraps_sync.o $(B)/asan_ts/symengine/libsymengine.a -lgmp -lpthread $(GUARD_WRAPS) $(SYNC_WRAPS)
